@@ -1955,6 +1955,16 @@ static int host_is_big_endian() {
   return 0;
 }
 
+/* scale-and-round result clipped to [min,max].  The clip has to happen in
+   the float domain: the result of vorbis_ftoi() is undefined beyond the
+   range of int (INT_MIN on x86, which used to turn large positive
+   samples into the most negative output value) */
+static int _ov_ftoi_clip(float f,float min,float max){
+  if(f>=max)return (int)max;
+  if(!(f>min))return (int)min;
+  return vorbis_ftoi(f);
+}
+
 /* up to this point, everything could more or less hide the multiple
    logical bitstream nature of chaining from the toplevel application
    if the toplevel application didn't particularly care.  However, at
@@ -2047,9 +2057,7 @@ long ov_read_filter(OggVorbis_File *vf,char *buffer,int length,
         vorbis_fpu_setround(&fpu);
         for(j=0;j<samples;j++)
           for(i=0;i<channels;i++){
-            val=vorbis_ftoi(pcm[i][j]*128.f);
-            if(val>127)val=127;
-            else if(val<-128)val=-128;
+            val=_ov_ftoi_clip(pcm[i][j]*128.f,-128.f,127.f);
             *buffer++=val+off;
           }
         vorbis_fpu_restore(fpu);
@@ -2064,9 +2072,7 @@ long ov_read_filter(OggVorbis_File *vf,char *buffer,int length,
               float *src=pcm[i];
               short *dest=((short *)buffer)+i;
               for(j=0;j<samples;j++) {
-                val=vorbis_ftoi(src[j]*32768.f);
-                if(val>32767)val=32767;
-                else if(val<-32768)val=-32768;
+                val=_ov_ftoi_clip(src[j]*32768.f,-32768.f,32767.f);
                 *dest=val;
                 dest+=channels;
               }
@@ -2080,9 +2086,7 @@ long ov_read_filter(OggVorbis_File *vf,char *buffer,int length,
               float *src=pcm[i];
               short *dest=((short *)buffer)+i;
               for(j=0;j<samples;j++) {
-                val=vorbis_ftoi(src[j]*32768.f);
-                if(val>32767)val=32767;
-                else if(val<-32768)val=-32768;
+                val=_ov_ftoi_clip(src[j]*32768.f,-32768.f,32767.f);
                 *dest=val+off;
                 dest+=channels;
               }
@@ -2095,9 +2099,7 @@ long ov_read_filter(OggVorbis_File *vf,char *buffer,int length,
           vorbis_fpu_setround(&fpu);
           for(j=0;j<samples;j++)
             for(i=0;i<channels;i++){
-              val=vorbis_ftoi(pcm[i][j]*32768.f);
-              if(val>32767)val=32767;
-              else if(val<-32768)val=-32768;
+              val=_ov_ftoi_clip(pcm[i][j]*32768.f,-32768.f,32767.f);
               val+=off;
               *buffer++=(val>>8);
               *buffer++=(val&0xff);
@@ -2109,9 +2111,7 @@ long ov_read_filter(OggVorbis_File *vf,char *buffer,int length,
           vorbis_fpu_setround(&fpu);
           for(j=0;j<samples;j++)
             for(i=0;i<channels;i++){
-              val=vorbis_ftoi(pcm[i][j]*32768.f);
-              if(val>32767)val=32767;
-              else if(val<-32768)val=-32768;
+              val=_ov_ftoi_clip(pcm[i][j]*32768.f,-32768.f,32767.f);
               val+=off;
               *buffer++=(val&0xff);
               *buffer++=(val>>8);
